@@ -1,12 +1,25 @@
-import FeatherModel.Lemmas.MergeJarMpo
+import FeatherModel.Lemmas.MergeJarTotal
 
 /-!
 # C13 — client/server jar merge is a faithful, annotated union
-Property theorems only. Model: `FeatherModel/Model/MergeJar.lean` (mirrors `dukebox/src/merge.rs`).
+Property theorems only. Model: `FeatherModel/Model/MergeJar.lean` (mirrors `dukebox/src/merge.rs`), domains and
+observation functions: `FeatherModel/Model/MergeJarDom.lean`.
+
+Reading guide. `mergeJar client server : Outcome Jar` has three outcomes: `ok r`, `err` (the `Result::Err` of the Rust
+function) and `panic site` (an `assert_eq!`/`panic!` of `merge_from_client` or of the InnerClasses closure fired).
+Every statement about the merged jar / class is made for the outcome `ok r`; `merge_class_total_partial` /
+`merge_jar_total_partial` give the decidable domain on which the outcome *is* `ok` (`merge_class_ok_iff`: for classes
+with duplicate-free members this is exactly the domain), and the `_witness` theorems show that outside of it the real
+code's panic is reachable by ordinary inputs (two jars whose versions of one class differ in an access flag).
 -/
+
+deriving instance DecidableEq for MergeJar.Outcome
 
 namespace Thm.C13
 open MergeJar
+
+/-- `r` lists every element of `a` and every element of `b`, each exactly once, and nothing else -/
+def ExactUnion {α : Type} (a b r : List α) : Prop := r.Nodup ∧ ∀ x, x ∈ r ↔ x ∈ a ∨ x ∈ b
 
 section MPO
 variable {α : Type} [BEq α] [LawfulBEq α]
@@ -59,5 +72,402 @@ theorem mpo_regression_fixed : mergePreserveOrder [0] [1, 0] = [1, 0] ∧
 
 example : compatibleB [1, 5, 2, 6] [7, 1, 3, 2, 8] = true ∧
     mergePreserveOrder [1, 5, 2, 6] [7, 1, 3, 2, 8] = [7, 1, 5, 3, 2, 6, 8] := by decide
+
+/-! ## merge_slice on fields and on methods (`mergeMembers`; key = (name, descriptor)) -/
+
+/-- the merged member list, read by keys, is `merge_preserve_order` of the two key lists -/
+theorem slice_keys {c s r : List Member} (h : mergeMembers c s = Outcome.ok r) :
+    r.map memberKey = mergePreserveOrder (c.map memberKey) (s.map memberKey) := mergeMembers_keys h
+
+/-- every field/method of either side exactly once -/
+theorem slice_exactly_once {c s r : List Member} (h : mergeMembers c s = Outcome.ok r)
+    (hc : keysNodup c = true) (hs : keysNodup s = true) :
+    ExactUnion (c.map memberKey) (s.map memberKey) (r.map memberKey) := by
+  rw [slice_keys h]
+  exact mpo_exactly_once _ _ ((nodupB_iff _).mp hc) ((nodupB_iff _).mp hs)
+
+/-- the client's member order is preserved (always) -/
+theorem slice_client_order {c s r : List Member} (h : mergeMembers c s = Outcome.ok r) :
+    (c.map memberKey).Sublist (r.map memberKey) := by
+  rw [slice_keys h]; exact mpo_client_order _ _
+
+/-- the server's member order is preserved whenever the two orders are compatible -/
+theorem slice_server_order {c s r : List Member} (h : mergeMembers c s = Outcome.ok r)
+    (hc : keysNodup c = true) (hs : keysNodup s = true)
+    (hcomp : compatibleB (c.map memberKey) (s.map memberKey) = true) :
+    (s.map memberKey).Sublist (r.map memberKey) := by
+  rw [slice_keys h]
+  exact mpo_server_order _ _ ((nodupB_iff _).mp hc) ((nodupB_iff _).mp hs) hcomp
+
+/-- side marks: every merged member is either a shared one — then it is the client's member, *unchanged* (no mark; the
+server's copy is dropped even when it differs in access flags, code or attributes) — or the member of the one side that
+has it with exactly `@Environment(EnvType.<that side>)` appended to its runtime-invisible annotations -/
+theorem slice_marks {c s r : List Member} (h : mergeMembers c s = Outcome.ok r) : ∀ m ∈ r,
+    (∃ mc ∈ c, (∃ ms ∈ s, memberKey ms = memberKey mc) ∧ m = mc) ∨
+    (∃ mc ∈ c, (∀ ms ∈ s, memberKey ms ≠ memberKey mc) ∧ m = { mc with anns := mc.anns ++ [Ann.env Side.client] }) ∨
+    (∃ ms ∈ s, (∀ mc ∈ c, memberKey mc ≠ memberKey ms) ∧ m = { ms with anns := ms.anns ++ [Ann.env Side.server] }) :=
+  mergeMembers_mem h
+
+/-- counted: on inputs that carry no `@Environment` yet, a shared member has none afterwards and a one-sided member has
+exactly one, of its side -/
+theorem slice_mark_count {c s r : List Member} (h : mergeMembers c s = Outcome.ok r)
+    (hc : noEnv c = true) (hs : noEnv s = true) : ∀ m ∈ r,
+    envMarks m = if memberKey m ∈ c.map memberKey then
+                   (if memberKey m ∈ s.map memberKey then [] else [Side.client])
+                 else [Side.server] := by
+  intro m hm
+  rcases mergeMembers_mem h m hm with ⟨mc, hmc, ⟨ms, hms, hk⟩, e⟩ | ⟨mc, hmc, hns, e⟩ | ⟨ms, hms, hnc, e⟩
+  · subst e
+    have h1 : memberKey m ∈ c.map memberKey := List.mem_map.mpr ⟨m, hmc, rfl⟩
+    have h2 : memberKey m ∈ s.map memberKey := List.mem_map.mpr ⟨ms, hms, hk⟩
+    simp only [h1, h2, if_true]
+    exact envMarks_of_noEnv hc m hmc
+  · subst e
+    have h1 : memberKey (markMember mc Side.client) ∈ c.map memberKey := List.mem_map.mpr ⟨mc, hmc, rfl⟩
+    have h2 : memberKey (markMember mc Side.client) ∉ s.map memberKey := by
+      intro hx
+      obtain ⟨ms, hms, hk⟩ := List.mem_map.mp hx
+      exact hns ms hms hk
+    rw [if_pos h1, if_neg h2, envMarks_markMember, envMarks_of_noEnv hc mc hmc]; rfl
+  · subst e
+    have h1 : memberKey (markMember ms Side.server) ∉ c.map memberKey := by
+      intro hx
+      obtain ⟨mc, hmc, hk⟩ := List.mem_map.mp hx
+      exact hnc mc hmc hk
+    rw [if_neg h1, envMarks_markMember, envMarks_of_noEnv hs ms hms]; rfl
+
+example : mergeMembers
+    [{ name := jstr "a", desc := jstr "I", access := 1, deprecated := false, synthetic := false, payload := 0, anns := [] },
+     { name := jstr "b", desc := jstr "I", access := 1, deprecated := false, synthetic := false, payload := 0, anns := [Ann.other 3] }]
+    [{ name := jstr "c", desc := jstr "J", access := 2, deprecated := false, synthetic := false, payload := 0, anns := [] },
+     { name := jstr "a", desc := jstr "I", access := 9, deprecated := false, synthetic := false, payload := 7, anns := [] }] =
+  Outcome.ok
+    [{ name := jstr "c", desc := jstr "J", access := 2, deprecated := false, synthetic := false, payload := 0, anns := [Ann.env Side.server] },
+     { name := jstr "a", desc := jstr "I", access := 1, deprecated := false, synthetic := false, payload := 0, anns := [] },
+     { name := jstr "b", desc := jstr "I", access := 1, deprecated := false, synthetic := false, payload := 0, anns := [Ann.other 3, Ann.env Side.client] }] := by
+  decide
+
+/-! ## class_merger_merge -/
+
+/-- a merged class consists of: the slice merges of fields, methods and InnerClasses entries, `merge_preserve_order` of
+the interfaces, and everything else (version, access flags, name, super class, deprecated/synthetic, visible annotations,
+`payload` = all remaining attributes) copied from the client; the invisible annotations of the client followed by one
+`@EnvironmentInterfaces` annotation when some interface is one-sided -/
+theorem class_parts {c s r : Class} (h : mergeClass c s = Outcome.ok r) :
+    mergeMembers c.fields s.fields = Outcome.ok r.fields ∧ mergeMembers c.methods s.methods = Outcome.ok r.methods ∧
+    mergeInners c.inners s.inners = Outcome.ok r.inners ∧
+    r.interfaces = mergePreserveOrder c.interfaces s.interfaces ∧
+    r.version = c.version ∧ r.access = c.access ∧ r.name = c.name ∧ r.super = c.super ∧
+    r.deprecated = c.deprecated ∧ r.synthetic = c.synthetic ∧ r.payload = c.payload ∧ r.visAnns = c.visAnns ∧
+    r.invisAnns = (if (itfMarks c s r.interfaces).isEmpty then c.invisAnns
+                   else c.invisAnns ++ [Ann.envItfs (itfMarks c s r.interfaces)]) := mergeClass_parts h
+
+/-- a class differing between the sides contains every field, method, interface and InnerClasses entry of either side
+exactly once -/
+theorem class_exactly_once {c s r : Class} (h : mergeClass c s = Outcome.ok r) (hk : keysOk c s = true)
+    (hci : c.interfaces.Nodup) (hsi : s.interfaces.Nodup) :
+    ExactUnion (c.fields.map memberKey) (s.fields.map memberKey) (r.fields.map memberKey) ∧
+    ExactUnion (c.methods.map memberKey) (s.methods.map memberKey) (r.methods.map memberKey) ∧
+    ExactUnion c.interfaces s.interfaces r.interfaces ∧
+    ExactUnion (c.inners.map (·.name)) (s.inners.map (·.name)) (r.inners.map (·.name)) := by
+  obtain ⟨hf, hm, hi, hitf, _⟩ := mergeClass_parts h
+  unfold keysOk at hk
+  simp only [Bool.and_eq_true] at hk
+  obtain ⟨⟨⟨⟨⟨k1, k2⟩, k3⟩, k4⟩, k5⟩, k6⟩ := hk
+  refine ⟨slice_exactly_once hf k1 k2, slice_exactly_once hm k3 k4, ?_, ?_⟩
+  · rw [hitf]; exact mpo_exactly_once _ _ hci hsi
+  · rw [mergeInners_names hi]
+    exact mpo_exactly_once _ _ ((nodupB_iff _).mp k5) ((nodupB_iff _).mp k6)
+
+/-- the relative order of the client's fields, methods, interfaces and InnerClasses entries is preserved (always) -/
+theorem class_client_order {c s r : Class} (h : mergeClass c s = Outcome.ok r) :
+    (c.fields.map memberKey).Sublist (r.fields.map memberKey) ∧
+    (c.methods.map memberKey).Sublist (r.methods.map memberKey) ∧
+    c.interfaces.Sublist r.interfaces ∧
+    (c.inners.map (·.name)).Sublist (r.inners.map (·.name)) := by
+  obtain ⟨hf, hm, hi, hitf, _⟩ := mergeClass_parts h
+  refine ⟨slice_client_order hf, slice_client_order hm, ?_, ?_⟩
+  · rw [hitf]; exact mpo_client_order _ _
+  · rw [mergeInners_names hi]; exact mpo_client_order _ _
+
+/-- the relative order of the server's fields / methods / interfaces / InnerClasses entries is preserved, for each of
+the four lists whose two orders are compatible -/
+theorem class_server_order {c s r : Class} (h : mergeClass c s = Outcome.ok r) (hk : keysOk c s = true)
+    (hci : c.interfaces.Nodup) (hsi : s.interfaces.Nodup) :
+    (compatibleB (c.fields.map memberKey) (s.fields.map memberKey) = true →
+      (s.fields.map memberKey).Sublist (r.fields.map memberKey)) ∧
+    (compatibleB (c.methods.map memberKey) (s.methods.map memberKey) = true →
+      (s.methods.map memberKey).Sublist (r.methods.map memberKey)) ∧
+    (compatibleB c.interfaces s.interfaces = true → s.interfaces.Sublist r.interfaces) ∧
+    (compatibleB (c.inners.map (·.name)) (s.inners.map (·.name)) = true →
+      (s.inners.map (·.name)).Sublist (r.inners.map (·.name))) := by
+  obtain ⟨hf, hm, hi, hitf, _⟩ := mergeClass_parts h
+  unfold keysOk at hk
+  simp only [Bool.and_eq_true] at hk
+  obtain ⟨⟨⟨⟨⟨k1, k2⟩, k3⟩, k4⟩, k5⟩, k6⟩ := hk
+  refine ⟨slice_server_order hf k1 k2, slice_server_order hm k3 k4, ?_, ?_⟩
+  · intro hc; rw [hitf]; exact mpo_server_order _ _ hci hsi hc
+  · intro hc; rw [mergeInners_names hi]
+    exact mpo_server_order _ _ ((nodupB_iff _).mp k5) ((nodupB_iff _).mp k6) hc
+
+/-- interface marks: the merged class keeps the client's invisible annotations and gets one additional
+`@EnvironmentInterfaces({…})` iff some interface is one-sided; its elements are exactly the one-sided interfaces, each
+once, each with its side (client ones first); shared interfaces are not mentioned -/
+theorem itf_marks {c s r : Class} (h : mergeClass c s = Outcome.ok r) :
+    r.invisAnns = (if (itfMarks c s r.interfaces).isEmpty then c.invisAnns
+                   else c.invisAnns ++ [Ann.envItfs (itfMarks c s r.interfaces)]) ∧
+    (∀ sd i, (sd, i) ∈ itfMarks c s r.interfaces ↔ i ∈ r.interfaces ∧
+      (match sd with
+       | Side.client => i ∈ c.interfaces ∧ i ∉ s.interfaces
+       | Side.server => i ∉ c.interfaces ∧ i ∈ s.interfaces)) ∧
+    (c.interfaces.Nodup → s.interfaces.Nodup → (itfMarks c s r.interfaces).Nodup) := by
+  obtain ⟨_, _, _, hitf, _, _, _, _, _, _, _, _, hinv⟩ := mergeClass_parts h
+  refine ⟨hinv, fun sd i => mem_itfMarks c s r.interfaces sd i, ?_⟩
+  intro hci hsi
+  apply itfMarks_nodup
+  rw [hitf]
+  exact (mpo_exactly_once _ _ hci hsi).1
+
+/-- InnerClasses entries are copied as they are (the code attaches no mark to a one-sided entry) -/
+theorem class_inners {c s r : Class} (h : mergeClass c s = Outcome.ok r) : ∀ i ∈ r.inners, i ∈ c.inners ∨ i ∈ s.inners :=
+  mergeInners_mem (mergeClass_parts h).2.2.1
+
+/-- proved domain of the class merge: same version, access flags, name, super class, deprecated/synthetic; shared members
+agree on deprecated/synthetic; shared InnerClasses entries are equal; keys duplicate-free. There the merge returns `Ok`.
+`_partial`: the property text speaks about every pair of differing classes -/
+theorem merge_class_total_partial {c s : Class} (h : mergeOk c s = true) : ∃ r, mergeClass c s = Outcome.ok r :=
+  mergeClass_total h
+
+/-- … and for classes with duplicate-free member lists that domain is exactly where the merge returns `Ok` -/
+theorem merge_class_ok_iff {c s : Class} (hk : keysOk c s = true) :
+    (∃ r, mergeClass c s = Outcome.ok r) ↔ mergeOk c s = true := mergeClass_ok_iff hk
+
+/-- no panic when everything the code `assert_eq!`s agrees: the outcome is then `Ok` or a clean `Err` -/
+theorem merge_class_no_panic {c s : Class} (h : noPanicB c s = true) :
+    mergeClass c s = Outcome.err ∨ ∃ r, mergeClass c s = Outcome.ok r := mergeClass_noPanic h
+
+/-- a small class used by the witnesses -/
+def wClass : Class :=
+  { version := 52, access := 0x21, name := jstr "net/minecraft/A", super := some (jstr "java/lang/Object"),
+    interfaces := [], fields := [], methods := [], deprecated := false, synthetic := false, inners := [], payload := 0,
+    visAnns := [], invisAnns := [] }
+
+def wField (dep : Bool) : Member :=
+  { name := jstr "f", desc := jstr "I", access := 1, deprecated := dep, synthetic := false, payload := 0, anns := [] }
+
+/-- DEFECT CANDIDATE (reachable panic): the same class, `public` on the client and `public final` on the server -/
+theorem merge_class_access_panic_witness :
+    mergeClass wClass { wClass with access := 0x31 } = Outcome.panic "merge_from_client" := by decide
+
+/-- … compiled for different class-file versions on the two sides -/
+theorem merge_class_version_panic_witness :
+    mergeClass wClass { wClass with version := 61 } = Outcome.panic "merge_from_client" := by decide
+
+/-- … a shared field `@Deprecated` on one side only -/
+theorem merge_class_member_panic_witness :
+    mergeClass { wClass with fields := [wField false] } { wClass with fields := [wField true] } =
+      Outcome.panic "merge_from_client" := by decide
+
+/-- … an InnerClasses entry for the same inner class with different flags (`assert_eq!` in the `inner` closure) -/
+theorem merge_class_inner_panic_witness :
+    mergeClass { wClass with inners := [{ name := jstr "net/minecraft/A$B", flags := 8 }] }
+               { wClass with inners := [{ name := jstr "net/minecraft/A$B", flags := 9 }] } =
+      Outcome.panic "inner_classes" := by decide
+
+/-- a different super class is a clean error, not a panic -/
+theorem merge_class_super_err_witness :
+    mergeClass wClass { wClass with super := some (jstr "net/minecraft/B") } = Outcome.err := by decide
+
+example : mergeOk { wClass with interfaces := [jstr "I", jstr "J"], fields := [wField false] }
+                  { wClass with interfaces := [jstr "K", jstr "J"], payload := 3 } = true ∧
+    (mergeClass { wClass with interfaces := [jstr "I", jstr "J"], fields := [wField false] }
+                { wClass with interfaces := [jstr "K", jstr "J"], payload := 3 } =
+      Outcome.ok { wClass with
+        interfaces := [jstr "I", jstr "K", jstr "J"],
+        fields := [{ wField false with anns := [Ann.env Side.client] }],
+        invisAnns := [Ann.envItfs [(Side.client, jstr "I"), (Side.server, jstr "K")]] }) := by decide
+
+/-! ## the entry table of `merge` -/
+
+/-- every entry name of either jar exactly once, minus signature files and bundled server libraries: the names of the
+merged jar are the client's names in order followed by the server-only names in order, with the names not `kept` removed
+(`kept`: not `META-INF/….SF|.RSA`; not a `.class` name outside `net/minecraft/` with a `/` in it that only the server has) -/
+theorem entries_exactly_once {client server r : Jar} (h : mergeJar client server = Outcome.ok r) :
+    names r = (names client ++ (names server).filter (fun n => !(names client).contains n)).filter (kept client) :=
+  mergeJar_names h
+
+/-- the same as a set statement: no name twice; a name is in the merged jar iff it is in one of the jars and `kept` -/
+theorem entries_nodup_mem {client server r : Jar} (hc : (names client).Nodup) (hs : (names server).Nodup)
+    (h : mergeJar client server = Outcome.ok r) :
+    (names r).Nodup ∧ ∀ n, n ∈ names r ↔ (n ∈ names client ∨ n ∈ names server) ∧ kept client n = true := by
+  rw [entries_exactly_once h]
+  constructor
+  · have hnd : (names client ++ (names server).filter (fun n => !(names client).contains n)).Nodup := by
+      rw [List.nodup_append]
+      refine ⟨hc, hs.filter _, ?_⟩
+      intro a ha b hb hab
+      subst hab
+      simp only [List.mem_filter, Bool.not_eq_eq_eq_not, Bool.not_true, List.contains_eq_mem, decide_eq_false_iff_not] at hb
+      exact hb.2 ha
+    exact hnd.filter _
+  · intro n
+    simp only [List.mem_filter, List.mem_append, Bool.not_eq_eq_eq_not, Bool.not_true, List.contains_eq_mem,
+      decide_eq_false_iff_not]
+    constructor
+    · intro ⟨h1, h2⟩
+      refine ⟨?_, h2⟩
+      cases h1 with
+      | inl h1 => exact Or.inl h1
+      | inr h1 => exact Or.inr h1.1
+    · intro ⟨h1, h2⟩
+      refine ⟨?_, h2⟩
+      by_cases hin : n ∈ names client
+      · exact Or.inl hin
+      · cases h1 with
+        | inl h1 => exact Or.inl h1
+        | inr h1 => exact Or.inr ⟨h1, hin⟩
+
+/-- what `kept` says, spelled out -/
+theorem kept_iff (client : Jar) (n : JStr) :
+    kept client n = true ↔ isSig n = false ∧ ¬ (isBundled n = true ∧ n ∉ names client) := by
+  unfold kept
+  by_cases h1 : isSig n = true <;> by_cases h2 : isBundled n = true <;> by_cases h3 : n ∈ names client <;>
+    simp [h1, h2, h3]
+
+/-- nothing else: every entry of the merged jar is the value of one row of the table (`mergeEntry`) for a name of one
+of the two jars -/
+theorem entry_origin {client server r : Jar} (h : mergeJar client server = Outcome.ok r) {n : JStr} {e : Entry}
+    (hm : (n, e) ∈ r) : ∃ cmb, (n, cmb) ∈ combine client server ∧ mergeEntry n cmb = Outcome.ok (some e) :=
+  mergeJar_src h hm
+
+/-- with duplicate-free names an entry of the result is determined by its name (so each row theorem below fixes it) -/
+theorem entry_unique {r : Jar} (h : (names r).Nodup) {n : JStr} {e e' : Entry}
+    (h1 : (n, e) ∈ r) (h2 : (n, e') ∈ r) : e = e' := entry_unique_of_nodup h h1 h2
+
+/-- row "client only": the entry is taken from the client through `oneSided` -/
+theorem entry_client_only {client server r : Jar} (h : mergeJar client server = Outcome.ok r) {n : JStr} {e : Entry}
+    (hm : (n, e) ∈ client) (hns : n ∉ names server) (h1 : n ≠ MANIFEST) (h2 : isSig n = false) :
+    (n, oneSided e Side.client) ∈ r :=
+  mergeJar_row h (combine_client_only hm ((get_none_iff n server).mpr hns)) (mergeEntry_client_row h1 h2)
+
+/-- row "server only": likewise, unless the name is a bundled library -/
+theorem entry_server_only {client server r : Jar} (h : mergeJar client server = Outcome.ok r) {n : JStr} {e : Entry}
+    (hm : (n, e) ∈ server) (hnc : n ∉ names client) (h1 : n ≠ MANIFEST) (h2 : isSig n = false)
+    (h3 : isBundled n = false) : (n, oneSided e Side.server) ∈ r :=
+  mergeJar_row h (combine_server_only hm ((get_none_iff n client).mpr hnc)) (mergeEntry_server_row h1 h2 h3)
+
+/-- a one-sided class is parsed and marked with `@Environment(EnvType.<side>)`, appended to its runtime-*visible*
+annotations (members get it as an invisible one); nothing else changes. One-sided resources and directories are
+passed through unchanged -/
+theorem one_sided_marks (a : Nat) (rp : ClsRepr) (c : Class) (d : Bytes) (sd : Side) :
+    oneSided { attr := a, content := Content.cls rp c } sd =
+      { attr := a, content := Content.cls ClsRepr.parsed { c with visAnns := c.visAnns ++ [Ann.env sd] } } ∧
+    oneSided { attr := a, content := Content.other d } sd = { attr := a, content := Content.other d } ∧
+    oneSided { attr := a, content := Content.dir } sd = { attr := a, content := Content.dir } :=
+  ⟨rfl, rfl, rfl⟩
+
+/-- row "both, identical class": the client's entry itself is in the result — same attributes, same representation
+(`ClassRepr::Vec` bytes are not parsed or re-written), same class -/
+theorem entry_identical_class {client server r : Jar} (h : mergeJar client server = Outcome.ok r)
+    (hs : (names server).Nodup) {n : JStr} {ac as' : Nat} {rc rs : ClsRepr} {cc : Class}
+    (hmc : (n, { attr := ac, content := Content.cls rc cc }) ∈ client)
+    (hms : (n, { attr := as', content := Content.cls rs cc }) ∈ server) (h1 : n ≠ MANIFEST) (h2 : isSig n = false) :
+    (n, { attr := ac, content := Content.cls rc cc }) ∈ r := by
+  apply mergeJar_row h (combine_both hmc (get_of_mem_nodup hms hs))
+  rw [mergeEntry_both_cls_row h1 h2 rfl rfl]
+  simp [mergeClassEntry]
+
+/-- row "both, differing classes": the result holds the class merge (first part of this file), parsed, with the
+client's attributes -/
+theorem entry_differing_class {client server r : Jar} (h : mergeJar client server = Outcome.ok r)
+    (hs : (names server).Nodup) {n : JStr} {ac as' : Nat} {rc rs : ClsRepr} {cc cs : Class}
+    (hmc : (n, { attr := ac, content := Content.cls rc cc }) ∈ client)
+    (hms : (n, { attr := as', content := Content.cls rs cs }) ∈ server) (h1 : n ≠ MANIFEST) (h2 : isSig n = false)
+    (hne : cc ≠ cs) :
+    ∃ m, mergeClass cc cs = Outcome.ok m ∧ (n, { attr := ac, content := Content.cls ClsRepr.parsed m }) ∈ r := by
+  have hcmb := combine_both hmc (get_of_mem_nodup hms hs)
+  unfold mergeJar at h
+  obtain ⟨o, ho, hin⟩ := mergeEntries_mem h n _ hcmb
+  rw [mergeEntry_both_cls_row h1 h2 rfl rfl] at ho
+  have hne' : (cc == cs) = false := by simpa using hne
+  simp only [mergeClassEntry, hne', Bool.false_eq_true, if_false] at ho
+  cases hmrg : mergeClass cc cs with
+  | ok m =>
+    rw [hmrg] at ho
+    simp only [ok_bind, pure_eq_ok, Outcome.ok.injEq] at ho
+    exact ⟨m, rfl, hin _ ho.symm⟩
+  | err => rw [hmrg] at ho; simp at ho
+  | panic site => rw [hmrg] at ho; simp at ho
+
+/-- row "both, resource": the client's bytes and attributes win *whatever the server's bytes are* — when the two differ
+the code only prints a warning; the server's version is dropped -/
+theorem entry_resource_both {client server r : Jar} (h : mergeJar client server = Outcome.ok r)
+    (hs : (names server).Nodup) {n : JStr} {ac as' : Nat} {dc ds : Bytes}
+    (hmc : (n, { attr := ac, content := Content.other dc }) ∈ client)
+    (hms : (n, { attr := as', content := Content.other ds }) ∈ server) (h1 : n ≠ MANIFEST) (h2 : isSig n = false) :
+    (n, { attr := ac, content := Content.other dc }) ∈ r :=
+  mergeJar_row h (combine_both hmc (get_of_mem_nodup hms hs)) (mergeEntry_both_other_row h1 h2 rfl rfl)
+
+/-- row "both, directory" -/
+theorem entry_dir_both {client server r : Jar} (h : mergeJar client server = Outcome.ok r)
+    (hs : (names server).Nodup) {n : JStr} {ac as' : Nat}
+    (hmc : (n, { attr := ac, content := Content.dir }) ∈ client)
+    (hms : (n, { attr := as', content := Content.dir }) ∈ server) (h1 : n ≠ MANIFEST) (h2 : isSig n = false) :
+    (n, { attr := ac, content := Content.dir }) ∈ r :=
+  mergeJar_row h (combine_both hmc (get_of_mem_nodup hms hs)) (mergeEntry_both_dir_row h1 h2 rfl rfl)
+
+/-- row "manifest": whatever the jars hold under `META-INF/MANIFEST.MF` (any kind, equal or not) is replaced by the fixed
+two-line manifest; attributes from the client's entry when it has one … -/
+theorem entry_manifest_client {client server r : Jar} (h : mergeJar client server = Outcome.ok r) {e : Entry}
+    (hm : (MANIFEST, e) ∈ client) : (MANIFEST, { attr := e.attr, content := Content.other MANIFEST_BYTES }) ∈ r := by
+  cases hg : get MANIFEST server with
+  | none => exact mergeJar_row h (combine_client_only hm hg) (mergeEntry_manifest_row _)
+  | some es => exact mergeJar_row h (combine_both hm hg) (mergeEntry_manifest_row _)
+
+/-- … else from the server's -/
+theorem entry_manifest_server {client server r : Jar} (h : mergeJar client server = Outcome.ok r) {e : Entry}
+    (hm : (MANIFEST, e) ∈ server) (hnc : MANIFEST ∉ names client) :
+    (MANIFEST, { attr := e.attr, content := Content.other MANIFEST_BYTES }) ∈ r :=
+  mergeJar_row h (combine_server_only hm ((get_none_iff MANIFEST client).mpr hnc)) (mergeEntry_manifest_row _)
+
+/-- proved domain of the jar merge (`jarDomain`: for every name both jars have, other than the manifest and signature
+files, the kinds agree and two differing classes satisfy `mergeOk`): there `merge` returns `Ok`.
+`_partial` because of the panic region of the class merge -/
+theorem merge_jar_total_partial {client server : Jar} (h : jarDomain client server = true) :
+    ∃ r, mergeJar client server = Outcome.ok r := mergeJar_total h
+
+def wEntry (c : Class) : Entry := { attr := 0, content := Content.cls ClsRepr.parsed c }
+
+/-- DEFECT CANDIDATE: two ordinary jars, one class `public` in one and `public final` in the other: `merge` panics -/
+theorem merge_jar_panic_witness :
+    mergeJar [(jstr "net/minecraft/A.class", wEntry wClass)]
+             [(jstr "net/minecraft/A.class", wEntry { wClass with access := 0x31 })] =
+      Outcome.panic "merge_from_client" ∧
+    jarDomain [(jstr "net/minecraft/A.class", wEntry wClass)]
+              [(jstr "net/minecraft/A.class", wEntry { wClass with access := 0x31 })] = false := by decide
+
+/-- kinds that do not match are a clean error -/
+theorem merge_jar_kind_mismatch_witness :
+    mergeJar [(jstr "a", { attr := 0, content := Content.dir })] [(jstr "a", { attr := 0, content := Content.other [1] })] =
+      Outcome.err := by decide
+
+/-- the code's signature-file rule does not cover `.DSA` / `.EC` signature blocks: they are kept -/
+theorem sig_rule_witness : isSig (jstr "META-INF/MOJANG.SF") = true ∧ isSig (jstr "META-INF/MOJANG.RSA") = true ∧
+    isSig (jstr "META-INF/MOJANG.DSA") = false ∧ isSig (jstr "META-INF/MOJANG.EC") = false ∧
+    isSig (jstr "other/X.SF") = false := by decide
+
+example : jarDomain
+      [(jstr "net/minecraft/A.class", wEntry wClass), (jstr "META-INF/X.SF", { attr := 1, content := Content.other [1] }),
+       (jstr "assets/a", { attr := 2, content := Content.other [1, 2] })]
+      [(jstr "com/lib/L.class", wEntry wClass), (jstr "assets/a", { attr := 3, content := Content.other [9] }),
+       (jstr "net/minecraft/A.class", wEntry { wClass with payload := 1 }), (jstr "S.class", wEntry wClass)] = true ∧
+    mergeJar
+      [(jstr "net/minecraft/A.class", wEntry wClass), (jstr "META-INF/X.SF", { attr := 1, content := Content.other [1] }),
+       (jstr "assets/a", { attr := 2, content := Content.other [1, 2] })]
+      [(jstr "com/lib/L.class", wEntry wClass), (jstr "assets/a", { attr := 3, content := Content.other [9] }),
+       (jstr "net/minecraft/A.class", wEntry { wClass with payload := 1 }), (jstr "S.class", wEntry wClass)] =
+    Outcome.ok
+      [(jstr "net/minecraft/A.class", wEntry wClass), (jstr "assets/a", { attr := 2, content := Content.other [1, 2] }),
+       (jstr "S.class", wEntry { wClass with visAnns := [Ann.env Side.server] })] := by decide
 
 end Thm.C13
